@@ -21,8 +21,11 @@ def _worker(args):
 
     mod = importlib.import_module(modname)
     try:
+        _t = time.time()
         st = mod.run_task(task)
         st.task_error = None
+        if os.environ.get("XMC_TIMING"):
+            print("    task %s: %.1fs %d exec" % (task.get("label"), time.time() - _t, st.executions), flush=True)
     except HarnessError as e:
         st = Stats()
         st.task_error = "HarnessError in task %r: %s" % (task.get("label", task), e)
